@@ -7,7 +7,7 @@ import c03
 
 PROP_FILES = ["Props/C04.v", "Props/C04Text.v"]
 OBLIG_FILES = ["Oblig/C04Obl.v", "Oblig/C03Obl.v", "Model/TamperFacts.v", "Model/TruncFacts.v", "Model/ArithFacts.v", "Model/ArithTable.v",
-               "Oblig/C04TextObl.v", "Model/TamperTextFacts.v", "Model/TamperTextLift.v", "Model/TruncBytes.v"]
+               "Oblig/C04TextObl.v", "Model/TamperTextFacts.v", "Model/TamperTextLift.v", "Model/TruncBytes.v", "Model/TruncCtl.v"]
 
 # perturbation kinds of harness/internal/arith/perturb.go that change exactly one protected field
 PROTECTED_KINDS = "0,1,2,3,4,5,6,8,9,10,12,13,20,21,22,23,24"
